@@ -125,7 +125,7 @@ def _entry(cx, tag, lay, derived):
     return o, s
 
 
-def h_jack_matmul(cx, n, nf, cfg, derived=False):
+def h_jack_matmul(cx, n, nf, cfg, derived=False, numeric_at=None):
     """jackknife product: exact central value; fluctuations = those of the pseudo-values of the product of the
     leave-one-out means (the jackknife-linearised product)"""
     import pyerrors as pe
@@ -133,11 +133,19 @@ def h_jack_matmul(cx, n, nf, cfg, derived=False):
     lay = {'e|r1': cfg}
     mats, raw = [], []
     for f in range(nf):
+        if f == numeric_at:
+            # a plain-number factor (diagonal, not a multiple of the identity, and a dense one): the same matrix on every jackknife sample
+            D = np.diag([1.0, -1.0, 2.0][:n]) if n > 1 else np.array([[2.5]])
+            if derived == 'dense':
+                D = D + 0.5 * np.ones((n, n))
+            mats.append(D)
+            raw.append({(i, j): [D[i, j]] * (len(cfg) + 1) for i in range(n) for j in range(n)})
+            continue
         M = np.empty((n, n), dtype=object)
         Rw = {}
         for i in range(n):
             for j in range(n):
-                o, s = _entry(cx, '%s%d%d' % ('ABC'[f], i, j), lay, derived)
+                o, s = _entry(cx, '%s%d%d' % ('ABC'[f], i, j), lay, derived if derived != 'dense' else False)
                 M[i, j] = o
                 Rw[(i, j)] = _jack_of(s, cfg)
         mats.append(M)
@@ -550,6 +558,9 @@ def jobs(tier, seed):
     add('jack_matmul', n=1, nf=2, cfg=[1, 2, 3, 4, 5], derived=True)
     add('einsum', subs='ij,jk->ik', shapes=[[1, 2], [2, 1]], cfg=[1, 2, 3, 4, 5], derived='jack')
     add('jack_matmul', n=1, nf=2, cfg=[1, 2, 3, 4, 5], derived='jack')
+    add('jack_matmul', n=2, nf=2, cfg=[1, 2, 3, 4, 5], numeric_at=1)             # plain-number factors in every position
+    add('jack_matmul', n=2, nf=3, cfg=[1, 2, 3, 4, 5], numeric_at=1)
+    add('jack_matmul', n=2, nf=3, cfg=[1, 2, 3, 4, 5], numeric_at=2, derived='dense')        # (a plain-number matrix as FIRST factor is not supported by jack_matmul: the chain name is taken from it)
     add('einsum', subs='ij,jk,kl->il', shapes=[[1, 2], [2, 2], [2, 1]], cfg=[1, 2, 3, 4, 5])
     add('det', n=1, lays=[E])
     add('det', n=2, lays=[E, Ei, F_])
